@@ -332,6 +332,7 @@ class Gateway(Engine):
         )
 
         await tmp_transport.get_extra_info(SZ_READER_TASK)
+        await asyncio.sleep(0)  # the last pkt is handed to its entities via call_soon()
 
         _LOGGER.warning("GATEWAY: Restored, resuming")
         self._resume()
